@@ -79,9 +79,17 @@ def main(ck, tier, w):
         e = r0.choice([None, None, r0.randrange(s + 1, n + 2)])
         jobs.append((n, nf, mode, s, e, r0))
 
+    # blocks of 1 MB / 2 MB / 4 MB (the largest a network produces) in files with disjoint height spans
+    jobs.append((24, 12, 'disjoint', 0, None, random.Random('%d-c17-bigblocks' % seed), 'big'))
+
     def tjob(j):
-        n, nf, mode, s, e, r0 = j
-        blocks = chains.std_chain(n)
+        n, nf, mode, s, e, r0 = j[:6]
+        if len(j) > 6:
+            sizes = {h: [1050000, 2100000, 4200000][(h // 2) % 3] for h in range(1, n, 2)}
+            blocks = chains.std_chain(n, txs_fn=lambda h, c: [btc.coinbase(h, None, outs=[{'val': 50, 'spk': btc.p2pkh(b'\x55' * 20)}] + (
+                [{'val': 0, 'spk': b'\x6a' + btc.push(bytes([h % 251]) * sizes[h])}] if h in sizes else []))])
+        else:
+            blocks = chains.std_chain(n)
         pl = layout.random_placement(r0, n, nf, mode)
         h0 = r0.choice([0, 0, 1000, 209990])          # also chains whose index does not reach down to height 0 (pruned / partial copy)
         d = layout.materialise(w.sub('dd'), blocks, pl, r0, fileno={f: f for f in range(nf)}, namer=lambda k: 'blk%05d.dat' % k, h0=h0)
@@ -107,19 +115,24 @@ def main(ck, tier, w):
         r = layout.run_csv(w, d, 'bitcoin', s, e, trace=tr, h0=h0)
         peak = max([len(x['open']) for x in r.events if x['ev'] == 'fetched'] or [0])
         fds = max([x['fds'] for x in r.events if x['ev'] == 'fetched'] or [0])
-        return j, r, tr, peak, fds
+        # descriptors that are not blk files (stdout, outputs, trace) are a constant: the real count must move with the open set
+        other = sorted({x['fds'] - len(x['open']) for x in r.events if x['ev'] == 'fetched'})
+        return j, r, tr, peak, (fds, other)
     ran = chains.pmap(tjob, jobs, 6)
     verdicts = tracecheck.validate_many([x[2] for x in ran], batch=2)
-    for (j, r, tr, peak, fds), v in zip(ran, verdicts):
+    for (j, r, tr, peak, (fds, other)), v in zip(ran, verdicts):
         ck.evals()
         ck.traces()
-        ck.distinct(('T',) + j[:5])
+        ck.distinct(('T',) + j[:5] + tuple(j[6:]))
         ck.sample({'blocks': j[0], 'files': j[1], 'mode': j[2], 'start': j[3], 'end': j[4], 'peak_open_files': peak, 'peak_fds': fds})
         probs = []
         if r.rc != 0:
             probs.append('exit status %d: %s' % (r.rc, r.stderr[-200:]))
         if not v['accepted']:
             probs.append('trace rejected: %s at event %s %s' % (v['reason'], v['rejected_at'], v['event'] or ''))
+        if len(other) > 1:
+            probs.append('the number of file descriptors of the process does not follow the set of open blk files: descriptors minus '
+                         'open blk files ranges over %s during the run (peak %d descriptors)' % (other[:6], fds))
         if j[2] == 'disjoint' and peak > 1:
             probs.append('%d blk files open at once although the height spans of the files do not overlap' % peak)
         if probs:
